@@ -316,6 +316,20 @@ pub fn gen_term(rng: &mut StdRng, depth: u32, budget: &mut i64) -> OwnedTerm {
     }
 }
 
+/// both decoders on raw inputs given by the driver
+pub fn run_raw(args: &[String]) -> i32 {
+    // etf-raw <in.ndjson {id, bytes}> <out.ndjson>
+    quiet_panics();
+    let recs = read_ndjson(&args[0]);
+    let mut w = NdWriter::create(&args[1]);
+    for r in recs.iter() {
+        let b = bytes_of(&r["bytes"]);
+        w.put(&json!({"id": r["id"], "own": obs_owned(&b), "bor": obs_borrowed(&b)}));
+    }
+    w.finish();
+    0
+}
+
 pub fn run_random(args: &[String]) -> i32 {
     // etf-random <out.ndjson> <count> <seed> <max_depth> <budget>
     quiet_panics();
